@@ -12,23 +12,29 @@ def tla_set(items):
     return "{" + ", ".join('"%s"' % i for i in sorted(items)) + "}"
 
 
-def machine_cfg(kind, n, m, depth, mode, ops_def, mant=53, nr=2, props=True):
+def machine_cfg(kind, n, m, depth, mode, ops_def, mant=53, nr=2, props=True, loadset="LoadSetGeneric"):
+    if isinstance(props, (list, tuple)):
+        plist = list(props)
+    else:
+        plist = ["ReTransparent", "AbsentIsZero"] if props else []
     return cfg(constants={"Kind": kind, "N": n, "M": m, "NR": nr, "Depth": depth, "Mode": mode, "Mant": mant},
-               overrides={"LoadSet": "LoadSetGeneric", "ReGrid": "ReGridSmall", "PartGrid": "PartGridSmall",
+               overrides={"LoadSet": loadset, "ReGrid": "ReGridSmall", "PartGrid": "PartGridSmall",
                           "ScalarGrid": "ScalarGridSmall", "PowSet": "PowSetSmall", "OpFilter": ops_def},
-               invariants=["Emit"], properties=(["ReTransparent", "AbsentIsZero"] if props else []),
+               invariants=["Emit"], properties=plist,
                view="View")
 
 
 def machine_run(kind, n, m, ops_def, depth=3, mode="bfs", mant=53, nr=2, workers=3, simulate=None, tag="",
-                timeout=900, props=True):
+                timeout=900, props=True, loadset="LoadSetGeneric"):
     name = "mach_%s_%d_%d_%s_%d%s" % (kind, n, m, mode, mant, tag)
-    return run_tlc("Machine.tla", machine_cfg(kind, n, m, depth, mode, ops_def, mant, nr, props), name,
+    return run_tlc("Machine.tla", machine_cfg(kind, n, m, depth, mode, ops_def, mant, nr, props, loadset), name,
                    workers=workers, simulate=simulate, depth=(depth + 1 if simulate else None), timeout=timeout)
 
 
-def replay(res, ops=None, types=None):
+def replay(res, ops=None, types=None, mode=None):
     args = ["replay", res.out_path]
+    if mode:
+        args += ["--mode", mode]
     if ops:
         args += ["--ops", ",".join(ops)]
     if types:
@@ -56,3 +62,49 @@ def absorb_replay(chk, rep, what):
              "expected": mm["expected"], "observed": mm["observed"], "behaviour": mm["behaviour"]})
     if rep["n_mismatch"] > len(rep["mismatches"]):
         chk.cov["further_mismatches_not_listed"] = rep["n_mismatch"] - len(rep["mismatches"])
+
+
+def require_cases(chk, rep_cases, kinds, ops, mants=(53, 24), what=""):
+    """vacuity guard: every (concrete type, op) pair that the configuration is meant to
+    exercise must actually have been replayed; otherwise the run is a tool error"""
+    import subprocess as sp
+    missing = []
+    keys = run_harness("hcore", ["keysfor", json.dumps([{"k": k, "n": n, "m": m} for (k, n, m) in kinds]),
+                                 json.dumps(list(mants))])
+    for key in keys:
+        for op in ops:
+            if op == "load":
+                continue
+            if not any(c.startswith(key + "|" + op + "|") for c in rep_cases):
+                missing.append(key + "|" + op)
+    if missing:
+        raise ToolError("vacuity: never exercised %s: %s" % (what, ", ".join(missing[:12])))
+
+
+def machine_check(pid, tier, ops_def, ops_list, kinds, props, replay_mode, what, rule, mants=(53, 24), depth=3,
+                  extra_jobs=(), sim=None):
+    loadset = "LoadSetQuick" if tier == "quick" else "LoadSetGeneric"
+    """the common shape of the calculator-based checks: TLC explores the machine for every
+    kind (checking the model-level action properties), every behaviour is replayed"""
+    chk = Check(pid, tier, "model_checking")
+    build_harness("hcore")
+    jobs = list(extra_jobs)
+    nextra = len(jobs)
+    for (k, n, m) in kinds:
+        for mant in mants:
+            jobs.append(lambda k=k, n=n, m=m, mant=mant: machine_run(k, n, m, ops_def, depth=depth, mant=mant,
+                                                                     props=props, loadset=loadset))
+    if sim:
+        for (k, n, m) in kinds:
+            jobs.append(lambda k=k, n=n, m=m: machine_run(k, n, m, ops_def, depth=sim[1], mode="sim", mant=53, nr=3,
+                                                           props=props, simulate=sim[0], tag="_sim", workers=1))
+    results = parallel(jobs, max_par=5)
+    for res in results[nextra:]:
+        chk.add_tlc(res, "calculator behaviours over exact rationals; action properties " + ",".join(props or []))
+        if res.violated:
+            chk.model_violation(res, "Machine")
+            continue
+        rep = replay(res, mode=replay_mode)
+        absorb_replay(chk, rep, what)
+    require_cases(chk, chk.distinct, kinds, ops_list, mants=mants, what=pid)
+    return chk, results[:nextra]
